@@ -3,6 +3,8 @@
 # against the CURRENT /repo HEAD in a scratch copy: patch applies, demo fails with it and passes
 # without it, the pinned suite has no new failure.  Writes /verif/seeded/<pid>/{patch.diff,demo.py,notes.md,validation.txt}.
 set -u
+# (a job started with & from a non-interactive shell inherits SIGINT ignored; tests/test_break.py relies on
+#  _thread.interrupt_main(), which is then a no-op and every execution runs its 10000 proposals: the launcher below resets it)
 P=$1; SRC=${2:-/tmp/seed_$P}
 OUT=/verif/seeded/${3:-$P}; mkdir -p $OUT
 S=$(mktemp -d /var/tmp/seedval.XXXXXX)
@@ -19,7 +21,7 @@ echo "validated against /repo HEAD $(git -C /repo rev-parse --short HEAD) on $(d
 timeout 300 /venv/bin/python $OUT/demo.py $S/repo > $S/demo_mod.log 2>&1; echo "demo on modified copy: exit $?"
 timeout 300 /venv/bin/python $OUT/demo.py /repo > $S/demo_orig.log 2>&1; echo "demo on unmodified /repo: exit $?"
 tail -3 $S/demo_mod.log | sed 's/^/   modified> /'
-( cd $S/repo && OMP_NUM_THREADS=2 OPENBLAS_NUM_THREADS=2 /venv/bin/python -m pytest -q -p no:cacheprovider --timeout=900 --continue-on-collection-errors --junitxml=$S/junit.xml > $S/pytest.log 2>&1 )
+( cd $S/repo && OMP_NUM_THREADS=2 OPENBLAS_NUM_THREADS=2 /venv/bin/python -c 'import signal, os, sys; signal.signal(signal.SIGINT, signal.SIG_DFL); os.execv(sys.executable, [sys.executable, "-m", "pytest"] + sys.argv[1:])' -q -p no:cacheprovider --timeout=900 --continue-on-collection-errors --junitxml=$S/junit.xml > $S/pytest.log 2>&1 )
 echo "suite on modified copy: $(tail -1 $S/pytest.log)"
 python3 /verif/tools/baseline_compare.py $S/junit.xml /root/.vp/BASELINE.json
 echo "baseline compare exit: $?"
